@@ -411,6 +411,18 @@ def history_case(draw, shard, tier):
             ops.append(dict(op="query", k=d.pick(0, 0, 0, 1, -1, 1, -1, 2, -2, 3, -3)))
         else:
             ops.append(dict(op="mutate", what=MUTATIONS[d.int(0, len(MUTATIONS) - 1)], idx=d.int(0, 11)))
+        if d.int(0, 4) == 0:
+            # the caller goes on working with something he was handed: propagates it, tabulates from it
+            ops.append(dict(op="use", how=d.pick("propagate", "iter", "ephem", "propagate-same"), idx=d.int(0, 11),
+                            k=d.pick(0, 1, -1, 2)))
+    if d.int(0, 2) == 0:
+        # a typical session: get the state, bring it to one's working frame, propagate / tabulate from it,
+        # then ask again for the very first date
+        k0 = d.pick(0, 0, 1, -1)
+        ops = [dict(op="query", k=k0),
+               dict(op="mutate", what=d.pick("frame:EME2000", "frame:MOD", "scale", "form:spherical"), idx=-1),
+               dict(op="use", how=d.pick("propagate", "iter", "ephem", "propagate-same"), idx=-1, k=d.pick(1, 2, 0)),
+               dict(op="query", k=k0)] + ops
     if not any(o["op"] == "query" for o in ops):
         ops.append(dict(op="query", k=0))
     return dict(shard=shard, body=body, mjd=mjd, sec=float(d.int(0, 86399)) + d.int(0, 999) / 1000.0, ops=ops)
@@ -466,6 +478,11 @@ def check_history(case):
     def date_of(k):
         return Date(int(case["mjd"]) + k * step, float(case["sec"]))
 
+    if not series:
+        # every history starts from the same library state (the propagators of kernel bodies are shared
+        # objects that remember the orbit last attached to them): attach one of a far date first
+        warm = ask(date_of(-20))
+        warm.propagate(date_of(-19))
     first = {}  # k -> (values, frame name, form name) of the first answer in this history
     handed = []  # every object the library handed out
     worst = 0.0
@@ -473,8 +490,26 @@ def check_history(case):
     for n, op in enumerate(case["ops"]):
         if op["op"] == "mutate":
             if handed:
-                _mutate(handed[op["idx"] % len(handed)], op["what"], date_of(7))
+                _mutate(handed[op["idx"] if op["idx"] < 0 else op["idx"] % len(handed)], op["what"], date_of(7))
                 cls.add("mutated:" + op["what"].split(":")[0])
+            continue
+        if op["op"] == "use":
+            # the object handed out earlier (changed or not) is used as an orbit: this attaches it to the
+            # body's propagator; what comes out is not judged here, later queries and conversions are
+            if handed:
+                obj = handed[op["idx"] if op["idx"] < 0 else op["idx"] % len(handed)]
+                try:
+                    if op["how"] == "propagate":
+                        obj.propagate(date_of(op["k"]))
+                    elif op["how"] == "propagate-same":
+                        obj.propagate(obj.date)
+                    elif op["how"] == "iter":
+                        list(obj.iter(start=obj.date, stop=timedelta(days=2 * step), step=timedelta(days=step)))
+                    else:
+                        obj.ephem(start=obj.date, stop=timedelta(days=2 * step), step=timedelta(days=step))
+                except Exception:
+                    pass
+                cls.add("used:" + op["how"])
             continue
         k = op["k"]
         dt = date_of(k)
@@ -536,6 +571,19 @@ def check_history(case):
             worst = max(worst, dp / tol_p, dv / (2e-5 + 1e-13 * speed))
             if dp > tol_p or dv > 2e-5 + 1e-13 * speed:
                 fail("history-position", f"{where}: {dp:.4g} m, {dv:.4g} m/s from the kernel segment")
+        if not series:
+            # a conversion that crosses the body's leg of the kernel tree, at the same date
+            from beyond.orbits import StateVector
+
+            seen = np.asarray(StateVector([0.0] * 6, dt, "cartesian", name).copy(frame="EME2000").base, float)
+            ref_e = K.state(idx, 399, j1, j2)
+            speed_e = float(np.linalg.norm(ref_e[3:]))
+            dpe = float(np.linalg.norm(seen[:3] - ref_e[:3]))
+            tol_e = speed_e * TIMING + 1e-3 + 1e-14 * (float(np.linalg.norm(K.state(idx, 0, j1, j2)[:3])) + 1.5e11)
+            worst = max(worst, dpe / tol_e)
+            if dpe > tol_e:
+                fail("history-conversion", f"{where}: centre of {name} seen from EME2000 is {dpe:.4g} m from the chained "
+                                           f"kernel segments")
         handed.append(res)
         cls.add(f"k:{abs(k)}")
     nq = sum(1 for o in case["ops"] if o["op"] == "query")
